@@ -217,6 +217,30 @@ type ocraCase struct {
 	Suite  ref.Suite `json:"suite"`
 	Input  inputJ    `json:"input"`
 	Note   string    `json:"note,omitempty"`
+	// Framed: the five fields are presented as adjacent sub-slices of ONE backing array (counter|challenge|
+	// password|session|timestamp cut from a frame, each with capacity running to the end of the frame)
+	Framed bool `json:"framed,omitempty"`
+}
+
+// framedInput lays the fields out in one shared frame (a common way to parse a wire message).
+func framedInput(in ref.Input) otp.OCRAInput {
+	total := len(in.Counter) + len(in.Challenge) + len(in.Password) + len(in.Session) + len(in.Timestamp) + 64
+	frame := make([]byte, 0, total)
+	cut := func(b []byte) []byte {
+		if b == nil {
+			return nil
+		}
+		start := len(frame)
+		frame = append(frame, b...)
+		return frame[start:len(frame)] // capacity extends over everything that follows in the frame
+	}
+	c := cut(in.Counter)
+	q := cut(in.Challenge)
+	p := cut(in.Password)
+	s := cut(in.Session)
+	t := cut(in.Timestamp)
+	frame = append(frame, make([]byte, 64)...)
+	return otp.OCRAInput{Counter: c, Challenge: q, Password: p, SessionInfo: s, Timestamp: t}
 }
 
 // ---- C05 ----
@@ -251,7 +275,11 @@ func judgeOCRA(c *Ctx, k ocraCase) {
 	if !ref.SuiteUsable(model) || !ref.Admit(model, in) {
 		return // C14/C06 territory
 	}
-	code, err, pan := callGenerateOCRA(k.Secret, suite, toOCRAInput(in))
+	oin := toOCRAInput(in)
+	if k.Framed {
+		oin = framedInput(in)
+	}
+	code, err, pan := callGenerateOCRA(k.Secret, suite, oin)
 	r.Eval(1)
 	want := ref.OCRA(key, model, in)
 	r.Nontrivial(fmt.Sprintf("o|%s|%s|%+v|%s", k.KeyHex, k.Via, model, mustJSON(k.Input)))
@@ -289,6 +317,12 @@ func c05Cases(c *Ctx, emit func(ocraCase)) {
 	}
 	emitWithVariants := func(k ocraCase) {
 		emit(k)
+		if rng.Intn(3) == 0 {
+			f := k
+			f.Framed = true
+			f.Note = ",fields-share-one-backing-array"
+			emit(f)
+		}
 		base := k.Input.ref()
 		for v := 0; v < 3; v++ {
 			kk := k
